@@ -161,11 +161,13 @@ class E3:
     def _start(self):
         self.p = subprocess.Popen([self.binary], stdin=subprocess.PIPE, stdout=subprocess.PIPE, stderr=subprocess.DEVNULL, text=True, bufsize=1)
 
-    def run(self, src, options=None, tsx=False, dump=True, twice=False):
+    def run(self, src, options=None, tsx=False, dump=True, twice=False, prelude=None):
         if self.p is None or self.p.poll() is not None:
             self._start()
         self.n += 1
         req = {'id': self.n, 'src': src, 'tsx': tsx, 'options': options or {}, 'dump': dump, 'twice': twice}
+        if prelude:
+            req['prelude'] = [dict(p, id=0, dump=False) for p in prelude]
         try:
             self.p.stdin.write(json.dumps(req) + '\n')
             self.p.stdin.flush()
